@@ -27,7 +27,7 @@ func init() {
 		Title: "Setters and accessors obey last-write-wins and keep derived flags in step",
 		Level: "model_checking",
 		Rule: "explicit-state breadth-first search on the real objects: for each of the 15 packet types (+TopicFilter, UserProperties) the alphabet is every public setter/adder with a small argument domain (zero/empty/false, one or two non-zero values, both booleans, four different will messages, QoS 0..3); " +
-			"from four initial states (constructor value, zero value &T{}, a full packet, the packet decoded from the full packet's frame) all call sequences up to depth 3 (quick; 2 from the non-constructor states) / 4 (thorough; 3) are executed; a state is the real object reached by replaying the path on a fresh object and is identified by the deep digest of its concrete object graph (deduplication can therefore not merge states with different futures). " +
+			"from four initial states (constructor value, zero value &T{}, a full packet, the packet decoded from the full packet's frame) all call sequences up to depth 3 (quick; 2 from the non-constructor states) / 4 (thorough; 3) are executed, one level deeper for types whose alphabet has at most 16 operations; a state is the real object reached by replaying the path on a fresh object and is identified by the deep digest of its concrete object graph (deduplication can therefore not merge states with different futures). " +
 			"In every state reached, every public accessor (found by reflection, so new accessors are covered), every HasFlag bit and the user-property list must equal the record-of-fields model (assignment for setters, append for adders, derived-flag rules from the property text); in every state whose packet is well formed the frame written by WriteTo, read by the specification decoder, must carry the same values. " +
 			"states = distinct concrete states, transitions = setter calls executed from expanded states, every trace runs on the implementation.",
 		Assumptions: []string{
@@ -415,6 +415,9 @@ func runE2Setters(x *core.Ctx, visit e2Visit) {
 			depth := depthOther
 			if init == "new" {
 				depth = depthNew
+			}
+			if len(ops) <= 16 {
+				depth++ // small alphabets afford one more level
 			}
 			if len(ops) == 0 {
 				depth = 0
